@@ -7,6 +7,7 @@ package bigslice
 import (
 	"context"
 	"reflect"
+	"sort"
 
 	"github.com/grailbio/bigslice/frame"
 	"github.com/grailbio/bigslice/slicefunc"
@@ -64,6 +65,7 @@ type stringAccumulator struct {
 	accType reflect.Type
 	fn      slicefunc.Func
 	state   map[string]reflect.Value
+	order   []string // keys yet to be read, sorted
 }
 
 func (s *stringAccumulator) Accumulate(in frame.Frame, n int) {
@@ -85,13 +87,22 @@ func (s *stringAccumulator) Accumulate(in frame.Frame, n int) {
 }
 
 func (s *stringAccumulator) Read(keys, values reflect.Value) (n int, err error) {
-	max := keys.Len()
-	for key, val := range s.state {
-		if n >= max {
-			break
+	if s.order == nil {
+		// Emit keys in sorted order, not in map iteration order: a reader
+		// that lost its connection resumes reading a recomputed output at
+		// the offset it had reached, so the output must be reproducible.
+		s.order = make([]string, 0, len(s.state))
+		for key := range s.state {
+			s.order = append(s.order, key)
 		}
+		sort.Strings(s.order)
+	}
+	max := keys.Len()
+	for n < max && len(s.order) > 0 {
+		key := s.order[0]
+		s.order = s.order[1:]
 		keys.Index(n).Set(reflect.ValueOf(key))
-		values.Index(n).Set(val)
+		values.Index(n).Set(s.state[key])
 		delete(s.state, key)
 		n++
 	}
@@ -106,6 +117,7 @@ type intAccumulator struct {
 	accType reflect.Type
 	fn      slicefunc.Func
 	state   map[int]reflect.Value
+	order   []int // keys yet to be read, sorted
 }
 
 func (s *intAccumulator) Accumulate(in frame.Frame, n int) {
@@ -127,13 +139,22 @@ func (s *intAccumulator) Accumulate(in frame.Frame, n int) {
 }
 
 func (s *intAccumulator) Read(keys, values reflect.Value) (n int, err error) {
-	max := keys.Len()
-	for key, val := range s.state {
-		if n >= max {
-			break
+	if s.order == nil {
+		// Emit keys in sorted order, not in map iteration order: a reader
+		// that lost its connection resumes reading a recomputed output at
+		// the offset it had reached, so the output must be reproducible.
+		s.order = make([]int, 0, len(s.state))
+		for key := range s.state {
+			s.order = append(s.order, key)
 		}
+		sort.Ints(s.order)
+	}
+	max := keys.Len()
+	for n < max && len(s.order) > 0 {
+		key := s.order[0]
+		s.order = s.order[1:]
 		keys.Index(n).Set(reflect.ValueOf(key))
-		values.Index(n).Set(val)
+		values.Index(n).Set(s.state[key])
 		delete(s.state, key)
 		n++
 	}
@@ -148,6 +169,7 @@ type int64Accumulator struct {
 	accType reflect.Type
 	fn      slicefunc.Func
 	state   map[int64]reflect.Value
+	order   []int64 // keys yet to be read, sorted
 }
 
 func (s *int64Accumulator) Accumulate(in frame.Frame, n int) {
@@ -169,13 +191,22 @@ func (s *int64Accumulator) Accumulate(in frame.Frame, n int) {
 }
 
 func (s *int64Accumulator) Read(keys, values reflect.Value) (n int, err error) {
-	max := keys.Len()
-	for key, val := range s.state {
-		if n >= max {
-			break
+	if s.order == nil {
+		// Emit keys in sorted order, not in map iteration order: a reader
+		// that lost its connection resumes reading a recomputed output at
+		// the offset it had reached, so the output must be reproducible.
+		s.order = make([]int64, 0, len(s.state))
+		for key := range s.state {
+			s.order = append(s.order, key)
 		}
+		sort.Slice(s.order, func(i, j int) bool { return s.order[i] < s.order[j] })
+	}
+	max := keys.Len()
+	for n < max && len(s.order) > 0 {
+		key := s.order[0]
+		s.order = s.order[1:]
 		keys.Index(n).Set(reflect.ValueOf(key))
-		values.Index(n).Set(val)
+		values.Index(n).Set(s.state[key])
 		delete(s.state, key)
 		n++
 	}
